@@ -24,7 +24,7 @@ RULE = (
     "open_unix_connection patched, virtual time). Oracle: the pending operation ends by caller timeout + acknowledgement time with "
     "TimeoutError, a ConnectionError or (line transports) an empty read; it never blocks forever after EOF/reset and never returns "
     "bytes that are not a complete message the peer sent; with retries the client returns the correct reply through a reconnect; "
-    "wait_for_ecu returns True; close() twice / after loss does not raise. Non-trivial: cut strictly inside the exchange. Distinct "
+    "wait_for_ecu returns True; close() twice / after loss does not raise; a peer that stays away for longer than one request's reconnect attempts is reached again by the next request; a second read without any caller timeout after reply + end-of-stream ends at once. Non-trivial: cut strictly inside the exchange. Distinct "
     "by (transport, level, exchange, offset, kind, timeout)."
 )
 ASSUMPTIONS = [
